@@ -12,21 +12,26 @@ namespace ProcStack
 open PMF
 
 def WF : List Pid → List (List Pid) → List Op → Prop
-  | _, _, [] => True
+  | _, sv, [] => sv = []       -- when the coroutine ends no scope is open
   | s, sv, .push p :: c => WF (p :: s) (s :: sv) c
-  | s, sv, .pop p :: c => ∃ s' sv', s = p :: s' ∧ sv = s' :: sv' ∧ WF s' sv' c
+  | s, sv, .pop p _ :: c => ∃ s' sv', s = p :: s' ∧ sv = s' :: sv' ∧ WF s' sv' c
   | s, sv, .obs p k :: c => (k.inScope = true → current s = some p) ∧ WF s sv c
   | s, sv, .yield :: c => WF s sv c
   | s, sv, .park :: c => WF s sv c
   | s, sv, .callSoon _ _ :: c => WF s sv c
   | s, sv, .launch _ _ :: c => WF s sv c
   | s, sv, .execute _ _ :: c => WF s sv c
+  | s, sv, .inline p _ :: c => current s = some p ∧ WF s sv c     -- the handler of the awaiting code will run in `p`'s scope
+  | s, sv, .handler p s0 _ :: c => s = s0 ∧ current s = some p ∧ WF s sv c
+  | s, sv, .throw :: c => WF s sv c    -- over-approximation: what follows is well-scoped whether the raise falls through or not
 
 /-- operations that user code of `p` may perform inside its scope: no push/pop of its own, samples are `p`'s -/
 def Op.neutral (p : Pid) : Op → Bool
   | .push _ => false
-  | .pop _ => false
+  | .pop _ _ => false
   | .obs q _ => q == p
+  | .inline q _ => q == p
+  | .handler _ _ _ => false
   | _ => true
 
 theorem wf_neutral_append {p : Pid} {s : List Pid} {sv : List (List Pid)} (c1 c2 : List Op)
@@ -38,7 +43,14 @@ theorem wf_neutral_append {p : Pid} {s : List Pid} {sv : List (List Pid)} (c1 c2
     have ih' := ih (fun o ho => hn o (by simp [ho]))
     cases op with
     | push q => simp [Op.neutral] at hop
-    | pop q => simp [Op.neutral] at hop
+    | pop q e => simp [Op.neutral] at hop
+    | handler q s0 a => simp [Op.neutral] at hop
+    | inline q k =>
+      simp only [Op.neutral, beq_iff_eq] at hop
+      subst hop
+      simp only [List.cons_append, WF]
+      exact ⟨hs, ih'⟩
+    | throw => simpa [WF] using ih'
     | obs q k =>
       simp only [Op.neutral, beq_iff_eq] at hop
       subst hop
@@ -76,6 +88,15 @@ theorem codeOps_neutral (p : Pid) (inCb : Bool) (code : List Act) :
   · simp [Op.neutral]
   · exact actOps_neutral p inCb a op ha
 
+theorem stepBody_neutral (p : Pid) (st : Step) : ∀ op ∈ stepBody p st, Op.neutral p op = true := by
+  intro op hop
+  simp only [stepBody, List.mem_append] at hop
+  rcases hop with h | h
+  · exact codeOps_neutral p false st.code op h
+  · cases hst : st.end_ <;> simp [hst] at h
+    subst h
+    simp [Op.neutral]
+
 theorem wf_runTask (p : Pid) (body : List Op) {s : List Pid} {sv : List (List Pid)} (rest : List Op)
     (hn : ∀ op ∈ body, Op.neutral p op = true) (h2 : WF s sv rest) : WF s sv (runTask p body ++ rest) := by
   simp only [runTask, List.cons_append, List.append_assoc, WF]
@@ -88,10 +109,11 @@ theorem wf_stepsOps (p : Pid) (steps : List Step) (s : List Pid) (sv : List (Lis
   | nil => simpa [stepsOps] using h2
   | cons st steps ih =>
     simp only [stepsOps, List.append_assoc]
-    apply wf_runTask p _ _ (codeOps_neutral p false st.code)
+    apply wf_runTask p _ _ (stepBody_neutral p st)
     cases st.end_ with
     | finish => exact wf_hooks_append p _ _ (transitionHooks_lifecycle _ _) h2
     | raise => exact wf_hooks_append p _ _ (transitionHooks_lifecycle _ _) h2
+    | raiseBase => simpa using h2
     | next =>
       simp only [List.append_assoc]
       exact wf_hooks_append p _ _ (transitionHooks_lifecycle _ _) ih
@@ -101,15 +123,91 @@ theorem wf_stepsOps (p : Pid) (steps : List Step) (s : List Pid) (sv : List (Lis
       apply wf_runTask p _ _ (by simp [Op.neutral])
       exact wf_hooks_append p _ _ (transitionHooks_lifecycle _ _) ih
 
-theorem wf_stepperOps (p : Pid) (steps : List Step) (s : List Pid) (sv : List (List Pid)) :
-    WF s sv (stepperOps p steps) := by
+/-- the stepping coroutine of `p` is well-scoped from any stack, and leaves that stack to what follows it (a child
+awaited inline: the handler and the rest of the awaiting code) -/
+theorem wf_stepperOps_append (p : Pid) (steps : List Step) (s : List Pid) (sv : List (List Pid)) (rest : List Op)
+    (h2 : WF s sv rest) : WF s sv (stepperOps p steps ++ rest) := by
   simp only [stepperOps, List.append_assoc]
   apply wf_runTask p _ _ (by simp)
   apply wf_hooks_append p _ _ (transitionHooks_lifecycle _ _)
-  simpa using wf_stepsOps p steps s sv [] (by simp [WF])
+  exact wf_stepsOps p steps s sv rest h2
 
-theorem wf_cbOps (p : Pid) (code : List Act) (s : List Pid) (sv : List (List Pid)) : WF s sv (cbOps p code) := by
-  have := wf_runTask p (codeOps p true code) (s := s) (sv := sv) [] (codeOps_neutral p true code) (by simp [WF])
+theorem wf_stepperOps (p : Pid) (steps : List Step) (s : List Pid) :
+    WF s [] (stepperOps p steps) := by
+  simpa using wf_stepperOps_append p steps s [] [] (by simp [WF])
+
+/-- **a BaseException raised anywhere in well-scoped code leaves well-scoped code**: with `d` not-yet-entered scopes
+skipped so far (their entries are the top `d` elements of the symbolic stack), `unwind` keeps exactly the exits of the open
+scopes, each of which finds its own process on top and restores the stack saved at its entry, and the absorbing handler
+runs on the stack of the scope that contains the `try`. -/
+theorem wf_unwind (how : Exit) (c : List Op) : ∀ (d : Nat) (s : List Pid) (sv : List (List Pid)),
+    WF s sv c → WF (s.drop d) (sv.drop d) (unwind how d c) := by
+  induction c with
+  | nil => intro d s sv h; simp only [WF] at h; simp [unwind, WF, h]
+  | cons op c ih =>
+    intro d s sv h
+    cases op with
+    | push p =>
+      simp only [WF] at h
+      simpa [unwind] using ih (d + 1) _ _ h
+    | pop p e =>
+      simp only [WF] at h
+      obtain ⟨s', sv', hs, hsv, hw⟩ := h
+      cases d with
+      | zero =>
+        simp only [unwind, WF, List.drop_zero]
+        exact ⟨s', sv', hs, hsv, by simpa using ih 0 _ _ hw⟩
+      | succ d =>
+        subst hs hsv
+        simpa [unwind] using ih d _ _ hw
+    | handler p s0 a =>
+      simp only [WF] at h
+      cases d with
+      | zero => simpa [unwind, WF] using h
+      | succ d => simpa [unwind] using ih (d + 1) _ _ h.2.2
+    | obs p k => simp only [WF] at h; simpa [unwind] using ih d _ _ h.2
+    | inline p k => simp only [WF] at h; simpa [unwind] using ih d _ _ h.2
+    | yield => simp only [WF] at h; simpa [unwind] using ih d _ _ h
+    | park => simp only [WF] at h; simpa [unwind] using ih d _ _ h
+    | callSoon a b => simp only [WF] at h; simpa [unwind] using ih d _ _ h
+    | launch a b => simp only [WF] at h; simpa [unwind] using ih d _ _ h
+    | execute a b => simp only [WF] at h; simpa [unwind] using ih d _ _ h
+    | throw => simp only [WF] at h; simpa [unwind] using ih d _ _ h
+
+/-- skipping the rest of the stepping coroutine of a killed process keeps the code well-scoped -/
+theorem wf_toHandler (c : List Op) : ∀ (d : Nat) (s : List Pid) (sv : List (List Pid)),
+    WF s sv c → WF (s.drop d) (sv.drop d) (toHandler d c) := by
+  induction c with
+  | nil => intro d s sv h; simp only [WF] at h; simp [toHandler, WF, h]
+  | cons op c ih =>
+    intro d s sv h
+    cases op with
+    | push p =>
+      simp only [WF] at h
+      simpa [toHandler] using ih (d + 1) _ _ h
+    | pop p e =>
+      cases d with
+      | zero => simpa [toHandler] using h
+      | succ d =>
+        simp only [WF] at h
+        obtain ⟨s', sv', hs, hsv, hw⟩ := h
+        subst hs hsv
+        simpa [toHandler] using ih d _ _ hw
+    | handler p s0 a =>
+      cases d with
+      | zero => simpa [toHandler] using h
+      | succ d => simp only [WF] at h; simpa [toHandler] using ih (d + 1) _ _ h.2.2
+    | obs p k => simp only [WF] at h; simpa [toHandler] using ih d _ _ h.2
+    | inline p k => simp only [WF] at h; simpa [toHandler] using ih d _ _ h.2
+    | yield => simp only [WF] at h; simpa [toHandler] using ih d _ _ h
+    | park => simp only [WF] at h; simpa [toHandler] using ih d _ _ h
+    | callSoon a b => simp only [WF] at h; simpa [toHandler] using ih d _ _ h
+    | launch a b => simp only [WF] at h; simpa [toHandler] using ih d _ _ h
+    | execute a b => simp only [WF] at h; simpa [toHandler] using ih d _ _ h
+    | throw => simp only [WF] at h; simpa [toHandler] using ih d _ _ h
+
+theorem wf_cbOps (p : Pid) (code : List Act) (s : List Pid) : WF s [] (cbOps p code) := by
+  have := wf_runTask p (codeOps p true code) (s := s) (sv := []) [] (codeOps_neutral p true code) (by simp [WF])
   simpa [cbOps] using this
 
 /-! ## The invariant -/
@@ -118,6 +216,7 @@ structure Inv (σ : State) : Prop where
   tasks : ∀ T ∈ σ.tasks, WF T.stack T.saved T.code
   log : ∀ o ∈ σ.log, o.kind.inScope = true → o.cur = some o.owner
   scopes : ∀ x ∈ σ.scopes, x.after = x.before
+  joins : ∀ j ∈ σ.joins, j.after = j.before ∧ current j.after = some j.pid
   noAssert : σ.err ≠ some .scopeAssertion
 
 theorem forall_mem_set {α} {P : α → Prop} {l : List α} {i : Nat} {a : α}
@@ -144,12 +243,12 @@ theorem spawnProcess_inv {σ σ' : State} {t u : Tid} {stack : List Pid} {cls : 
   · simp at hs
   · simp only [Option.some.injEq, Prod.mk.injEq] at hs
     obtain ⟨rfl, _⟩ := hs
-    refine ⟨?_, ?_, h.scopes, h.noAssert⟩
+    refine ⟨?_, ?_, h.scopes, h.joins, h.noAssert⟩
     · intro T hT
       simp only [List.mem_append, List.mem_singleton] at hT
       rcases hT with hT | rfl
       · exact h.tasks T hT
-      · exact wf_stepperOps _ _ _ _
+      · exact wf_stepperOps _ _ _
     · exact logHooks_inv _ _ _ _ _ (transitionHooks_lifecycle _ _) h.log
 
 theorem spawnProcess_scn {σ σ' : State} {t u : Tid} {stack : List Pid} {cls : Nat}
@@ -169,7 +268,7 @@ theorem spawnProcess_scn {σ σ' : State} {t u : Tid} {stack : List Pid} {cls : 
 theorem exec1_inv {σ : State} (t : Tid) (h : Inv σ) : Inv (exec1 σ t).1 := by
   unfold exec1
   split
-  · exact ⟨h.tasks, h.log, h.scopes, by simp⟩
+  · exact ⟨h.tasks, h.log, h.scopes, h.joins, by simp⟩
   · rename_i T hT
     have hmem : T ∈ σ.tasks := List.mem_of_getElem? hT
     have hwf := h.tasks T hmem
@@ -180,12 +279,12 @@ theorem exec1_inv {σ : State} (t : Tid) (h : Inv σ) : Inv (exec1 σ t).1 := by
       split
       · -- push
         simp only [WF] at hwf
-        exact ⟨forall_mem_set h.tasks hwf, h.log, h.scopes, h.noAssert⟩
+        exact ⟨forall_mem_set h.tasks hwf, h.log, h.scopes, h.joins, h.noAssert⟩
       · -- pop
         simp only [WF] at hwf
         obtain ⟨s', sv', hs, hsv, hw⟩ := hwf
         split
-        · refine ⟨forall_mem_set h.tasks (by simpa [hs, hsv] using hw), h.log, ?_, h.noAssert⟩
+        · refine ⟨forall_mem_set h.tasks (by simpa [hs, hsv] using hw), h.log, ?_, h.joins, h.noAssert⟩
           intro x hx
           simp only [List.mem_cons] at hx
           rcases hx with rfl | hx
@@ -195,40 +294,67 @@ theorem exec1_inv {σ : State} (t : Tid) (h : Inv σ) : Inv (exec1 σ t).1 := by
           simp [hs, current] at hne
       · -- obs
         simp only [WF] at hwf
-        refine ⟨forall_mem_set h.tasks hwf.2, ?_, h.scopes, h.noAssert⟩
+        refine ⟨forall_mem_set h.tasks hwf.2, ?_, h.scopes, h.joins, h.noAssert⟩
         intro o ho hk
         simp only [List.mem_cons] at ho
         rcases ho with rfl | ho
         · exact hwf.1 hk
         · exact h.log o ho hk
       · simp only [WF] at hwf
-        exact ⟨forall_mem_set h.tasks hwf, h.log, h.scopes, h.noAssert⟩
+        exact ⟨forall_mem_set h.tasks hwf, h.log, h.scopes, h.joins, h.noAssert⟩
       · simp only [WF] at hwf
-        exact ⟨forall_mem_set h.tasks hwf, h.log, h.scopes, h.noAssert⟩
+        exact ⟨forall_mem_set h.tasks hwf, h.log, h.scopes, h.joins, h.noAssert⟩
       · -- callSoon
         simp only [WF] at hwf
         split
-        · exact ⟨h.tasks, h.log, h.scopes, by simp⟩
-        · refine ⟨?_, h.log, h.scopes, h.noAssert⟩
+        · exact ⟨h.tasks, h.log, h.scopes, h.joins, by simp⟩
+        · refine ⟨?_, h.log, h.scopes, h.joins, h.noAssert⟩
           intro T' hT'
           simp only [List.mem_append, List.mem_singleton] at hT'
           rcases hT' with hT' | rfl
           · exact forall_mem_set h.tasks hwf T' hT'
-          · exact wf_cbOps _ _ _ _
+          · exact wf_cbOps _ _ _
       · -- launch
         simp only [WF] at hwf
         split
-        · exact ⟨h.tasks, h.log, h.scopes, by simp⟩
+        · exact ⟨h.tasks, h.log, h.scopes, h.joins, by simp⟩
         · rename_i σ' u hsp
           exact spawnProcess_inv (σ := { σ with tasks := σ.tasks.set t { T with code := rest } })
-            ⟨forall_mem_set h.tasks hwf, h.log, h.scopes, h.noAssert⟩ hsp
+            ⟨forall_mem_set h.tasks hwf, h.log, h.scopes, h.joins, h.noAssert⟩ hsp
       · -- execute
         simp only [WF] at hwf
         split
-        · exact ⟨h.tasks, h.log, h.scopes, by simp⟩
+        · exact ⟨h.tasks, h.log, h.scopes, h.joins, by simp⟩
         · rename_i σ' u hsp
           have h' := spawnProcess_inv h hsp
-          exact ⟨forall_mem_set h'.tasks hwf, h'.log, h'.scopes, h'.noAssert⟩
+          exact ⟨forall_mem_set h'.tasks hwf, h'.log, h'.scopes, h'.joins, h'.noAssert⟩
+      · -- inline: the child's stepping coroutine, then the handler, then the rest of the awaiting code
+        simp only [WF] at hwf
+        split
+        · exact ⟨h.tasks, h.log, h.scopes, h.joins, by simp⟩
+        · refine ⟨forall_mem_set h.tasks ?_, logHooks_inv _ _ _ _ _ (transitionHooks_lifecycle _ _) h.log, h.scopes,
+            h.joins, h.noAssert⟩
+          apply wf_stepperOps_append
+          simp only [WF]
+          exact ⟨trivial, hwf⟩
+      · -- handler: reached normally, or by `unwind` (then the `except` clause samples)
+        simp only [WF] at hwf
+        refine ⟨forall_mem_set h.tasks hwf.2.2, ?_, h.scopes, ?_, h.noAssert⟩
+        · intro o ho hk
+          split at ho
+          · simp only [List.mem_cons] at ho
+            rcases ho with rfl | ho
+            · exact hwf.2.1
+            · exact h.log o ho hk
+          · exact h.log o ho hk
+        · intro j hj
+          simp only [List.mem_cons] at hj
+          rcases hj with rfl | hj
+          · exact ⟨hwf.1, hwf.2.1⟩
+          · exact h.joins j hj
+      · -- throw
+        simp only [WF] at hwf
+        exact ⟨forall_mem_set h.tasks (by simpa using wf_unwind .baseException rest 0 _ _ hwf), h.log, h.scopes, h.joins, h.noAssert⟩
 
 theorem resumable_inv {σ σ' : State} {b : Tid} (h : Inv σ) (hr : resumable σ = some (b, σ')) : Inv σ' := by
   unfold resumable at hr
@@ -244,12 +370,12 @@ theorem resumable_inv {σ σ' : State} {b : Tid} (h : Inv σ) (hr : resumable σ
         · split at hr
           · simp only [Option.some.injEq, Prod.mk.injEq] at hr
             obtain ⟨_, rfl⟩ := hr
-            exact ⟨forall_mem_set h.tasks (h.tasks B (List.mem_of_getElem? hB)), h.log, h.scopes, h.noAssert⟩
+            exact ⟨forall_mem_set h.tasks (h.tasks B (List.mem_of_getElem? hB)), h.log, h.scopes, h.joins, h.noAssert⟩
           · simp at hr
 
 theorem run_inv (n : Nat) {σ : State} (t : Tid) (h : Inv σ) : Inv (run n σ t) := by
   induction n generalizing σ t with
-  | zero => exact ⟨h.tasks, h.log, h.scopes, by simp [run]⟩
+  | zero => exact ⟨h.tasks, h.log, h.scopes, h.joins, by simp [run]⟩
   | succ n ih =>
     have h1 := exec1_inv t h
     simp only [run]
@@ -264,59 +390,80 @@ theorem run_inv (n : Nat) {σ : State} (t : Tid) (h : Inv σ) : Inv (run n σ t)
       · rename_i hr; exact ih _ (resumable_inv h1 hr)
       · exact h1
 
+theorem deliver_inv {σ : State} (t : Tid) (h : Inv σ) : Inv (deliver σ t) := by
+  unfold deliver
+  split
+  · exact h
+  · rename_i T hT
+    split
+    · refine ⟨forall_mem_set h.tasks ?_, h.log, h.scopes, h.joins, h.noAssert⟩
+      simpa using wf_unwind .cancelled T.code 0 _ _ (h.tasks T (List.mem_of_getElem? hT))
+    · exact h
+
 theorem step_inv {σ : State} (e : Event) (h : Inv σ) : Inv (step σ e) := by
   cases e with
+  | cancel t =>
+    simp only [step]
+    split
+    · exact h
+    · split
+      · exact ⟨h.tasks, h.log, h.scopes, h.joins, by simp⟩
+      · rename_i T hT
+        split
+        · exact ⟨forall_mem_set h.tasks (h.tasks T (List.mem_of_getElem? hT)), h.log, h.scopes, h.joins, h.noAssert⟩
+        · exact ⟨h.tasks, h.log, h.scopes, h.joins, by simp⟩
   | tick t =>
     simp only [step]
     split
     · exact h
     · split
-      · exact run_inv _ t h
-      · exact ⟨h.tasks, h.log, h.scopes, by simp⟩
+      · exact run_inv _ t (deliver_inv t h)
+      · exact ⟨h.tasks, h.log, h.scopes, h.joins, by simp⟩
   | resume t =>
     simp only [step]
     split
     · exact h
     · split
-      · exact ⟨h.tasks, h.log, h.scopes, by simp⟩
+      · exact ⟨h.tasks, h.log, h.scopes, h.joins, by simp⟩
       · rename_i T hT
         split
-        · exact ⟨forall_mem_set h.tasks (h.tasks T (List.mem_of_getElem? hT)), h.log, h.scopes, h.noAssert⟩
-        · exact ⟨h.tasks, h.log, h.scopes, by simp⟩
+        · exact ⟨forall_mem_set h.tasks (h.tasks T (List.mem_of_getElem? hT)), h.log, h.scopes, h.joins, h.noAssert⟩
+        · exact ⟨h.tasks, h.log, h.scopes, h.joins, by simp⟩
   | kill t =>
     simp only [step]
     split
     · exact h
     · split
-      · exact ⟨h.tasks, h.log, h.scopes, by simp⟩
+      · exact ⟨h.tasks, h.log, h.scopes, h.joins, by simp⟩
       · rename_i T hT
         split
         · split
-          · rename_i p rest hcode
+          · rename_i p e rest hcode
             have hwf := h.tasks T (List.mem_of_getElem? hT)
             rw [hcode] at hwf
             simp only [WF] at hwf
-            obtain ⟨s', sv', hs, hsv, _⟩ := hwf
-            refine ⟨forall_mem_set h.tasks ?_, h.log, h.scopes, h.noAssert⟩
+            obtain ⟨s', sv', hs, hsv, hw⟩ := hwf
+            refine ⟨forall_mem_set h.tasks ?_, h.log, h.scopes, h.joins, h.noAssert⟩
             simp only [WF]
             refine ⟨s', sv', hs, hsv, ?_⟩
-            simpa using wf_hooks_append p _ (s := s') (sv := sv') [] (transitionHooks_lifecycle _ _) (by simp [WF])
-          · exact ⟨h.tasks, h.log, h.scopes, by simp⟩
-        · exact ⟨h.tasks, h.log, h.scopes, by simp⟩
+            exact wf_hooks_append p _ (s := s') (sv := sv') _ (transitionHooks_lifecycle _ _)
+              (by simpa using wf_toHandler _ 0 _ _ hw)
+          · exact ⟨h.tasks, h.log, h.scopes, h.joins, by simp⟩
+        · exact ⟨h.tasks, h.log, h.scopes, h.joins, by simp⟩
   | callSoon p cb =>
     simp only [step]
     split
     · exact h
     · split
-      · exact ⟨h.tasks, h.log, h.scopes, by simp⟩
+      · exact ⟨h.tasks, h.log, h.scopes, h.joins, by simp⟩
       · split
-        · refine ⟨?_, h.log, h.scopes, h.noAssert⟩
+        · refine ⟨?_, h.log, h.scopes, h.joins, h.noAssert⟩
           intro T hT
           simp only [List.mem_append, List.mem_singleton] at hT
           rcases hT with hT | rfl
           · exact h.tasks T hT
-          · exact wf_cbOps _ _ _ _
-        · exact ⟨h.tasks, h.log, h.scopes, by simp⟩
+          · exact wf_cbOps _ _ _
+        · exact ⟨h.tasks, h.log, h.scopes, h.joins, by simp⟩
 
 theorem runEvents_inv {σ : State} (es : List Event) (h : Inv σ) : Inv (runEvents σ es) := by
   induction es generalizing σ with
@@ -329,12 +476,12 @@ theorem initTop_inv {σ : State} (top : List Nat) (h : Inv σ) : Inv (initTop σ
   | cons c top ih =>
     simp only [initTop]
     split
-    · exact ⟨h.tasks, h.log, h.scopes, by simp⟩
+    · exact ⟨h.tasks, h.log, h.scopes, h.joins, by simp⟩
     · rename_i σ' u hsp
       exact ih (spawnProcess_inv h hsp)
 
 theorem init_inv (scn : Scenario) (top : List Nat) : Inv (init scn top) :=
-  initTop_inv top ⟨by simp, by simp, by simp, by simp⟩
+  initTop_inv top ⟨by simp, by simp, by simp, by simp, by simp⟩
 
 /-- every reachable state satisfies the invariant, for every scenario and every order of ticks -/
 theorem reachable_inv (scn : Scenario) (top : List Nat) (es : List Event) : Inv (runEvents (init scn top) es) :=
@@ -385,6 +532,11 @@ theorem exec1_frame (σ : State) (t : Tid) : Frame σ (exec1 σ t).1 t := by
           refine ⟨by simp only [List.length_set]; omega, fun i hi hne => ?_, Or.inr (by simp [hc])⟩
           simp only
           rw [List.getElem?_set_ne (Ne.symm hne), ho i hi]
+      · split
+        · exact ⟨Nat.le_refl _, fun _ _ _ => rfl, Or.inl rfl⟩
+        · exact ⟨by simp, fun i _ hne => by simp [List.getElem?_set_ne (Ne.symm hne)], Or.inl rfl⟩
+      · exact ⟨by simp, fun i _ hne => by simp [List.getElem?_set_ne (Ne.symm hne)], Or.inl rfl⟩
+      · exact ⟨by simp, fun i _ hne => by simp [List.getElem?_set_ne (Ne.symm hne)], Or.inl rfl⟩
 
 theorem resumable_frame {σ σ' : State} {b : Tid} (hr : resumable σ = some (b, σ')) :
     σ.callStack = b :: σ'.callStack ∧ σ'.tasks.length = σ.tasks.length ∧
@@ -444,14 +596,53 @@ theorem run_frame (n : Nat) (σ : State) (t u : Tid) (hu : u < σ.tasks.length) 
       · rename_i hr; exact hres _ _ hr
       · exact hf.others u hu hne
 
+/-- throwing the pending `CancelledError` into task `t` touches only `t`'s record -/
+theorem deliver_frame (σ : State) (t : Tid) :
+    (deliver σ t).tasks.length = σ.tasks.length ∧ (deliver σ t).callStack = σ.callStack ∧
+    (∀ u, u ≠ t → (deliver σ t).tasks[u]? = σ.tasks[u]?) ∧
+    ((deliver σ t).tasks[t]?.map (·.stack) = σ.tasks[t]?.map (·.stack)) := by
+  unfold deliver
+  split
+  · exact ⟨rfl, rfl, fun _ _ => rfl, rfl⟩
+  · rename_i T hT
+    split
+    · have ht : t < σ.tasks.length := by
+        rcases Nat.lt_or_ge t σ.tasks.length with h | h
+        · exact h
+        · simp [List.getElem?_eq_none h] at hT
+      exact ⟨by simp, rfl, fun u hne => by simp [List.getElem?_set_ne (Ne.symm hne)],
+        by simp [List.getElem?_set_self ht, hT]⟩
+    · exact ⟨rfl, rfl, fun _ _ => rfl, rfl⟩
+
 theorem step_frame (σ : State) (t u : Tid) (hu : u < σ.tasks.length) (hne : u ≠ t) (hcs : u ∉ σ.callStack) :
     (step σ (.tick t)).tasks[u]? = σ.tasks[u]? := by
   simp only [step]
   split
   · rfl
   · split
-    · exact run_frame _ σ t u hu hne hcs
+    · obtain ⟨hl, hc, ho, _⟩ := deliver_frame σ t
+      rw [run_frame _ (deliver σ t) t u (by rw [hl]; exact hu) hne (by rw [hc]; exact hcs), ho u hne]
     · rfl
+
+/-- requesting the cancellation of a task changes no stack at all (the scopes are left by the task itself, when it runs) -/
+theorem cancel_frame (σ : State) (t u : Tid) :
+    (step σ (.cancel t)).tasks[u]?.map (·.stack) = σ.tasks[u]?.map (·.stack) := by
+  simp only [step]
+  split
+  · rfl
+  · split
+    · rfl
+    · rename_i T hT
+      split
+      · by_cases h : u = t
+        · subst h
+          have : u < σ.tasks.length := by
+            rcases Nat.lt_or_ge u σ.tasks.length with h | h
+            · exact h
+            · simp [List.getElem?_eq_none h] at hT
+          simp [List.getElem?_set_self this, hT]
+        · simp [List.getElem?_set_ne (Ne.symm h)]
+      · rfl
 
 theorem resume_frame (σ : State) (t u : Tid) :
     (step σ (.resume t)).tasks[u]?.map (·.stack) = σ.tasks[u]?.map (·.stack) := by
